@@ -97,7 +97,27 @@ def check_file(msgs, expect_kinds, ref, p, label):
     return None
 
 
-def judge(trace, name, mod, tmp, alt_privs=None):
+def judge(trace, name, mod, tmp, alt_privs=None, split=None):
+    if split:
+        # history with two proving steps: the files written by the first must describe the trace so far
+        msg = judge(trace[:split], name, mod, tmp)
+        if msg:
+            return "after the first prove() (of two): " + msg
+        p0 = backends.FIELDS[name]
+        backends.reset_state(name, mod)
+        vars_ = backends.apply_trace(trace[:split], mod)
+        mod.prove()
+        backends.apply_trace(trace[split:], mod, vars_)
+        mod.prove()
+        ref = backends.reference(trace, p0)
+        try:
+            mcomp = fbreader.read_file(open(os.path.join(tmp, "computation.zkif"), "rb").read())
+            mcirc = fbreader.read_file(open(os.path.join(tmp, "circuit.zkif"), "rb").read())
+        except fbreader.FormatError as e:
+            return "after the second prove(): malformed file: %s" % e
+        msg = check_file(mcomp, ["CircuitHeader", "Witness", "ConstraintSystem"], ref, p0, "computation.zkif") or \
+            check_file(mcirc, ["CircuitHeader", "ConstraintSystem"], ref, p0, "circuit.zkif")
+        return ("after the second prove(): " + msg) if msg else None
     p = backends.FIELDS[name]
     ref = backends.reference(trace, p)
 
@@ -186,10 +206,11 @@ def shard(name, seed, n_examples, programs):
             alt = None
             if draw(st.booleans()):
                 alt = [draw(st.integers(-3, p + 3)) for c in trace if c[0] == "priv"]
-            case = {"config": name, "trace": trace, "alt_privs": alt}
-            msg = quiet(judge, trace, name, e.mod, e.tmp, alt)
+            split = draw(st.integers(1, len(trace))) if len(trace) > 1 and alt is None and draw(st.integers(0, 2)) == 0 else None
+            case = {"config": name, "trace": trace, "alt_privs": alt, "split": split}
+            msg = quiet(judge, trace, name, e.mod, e.tmp, alt, split)
             nt = nontrivial(trace, p)
-            stats.case(case if nt else None, nt, lab + (("metamorphic",) if alt else ()))
+            stats.case(case if nt else None, nt, lab + (("metamorphic",) if alt else ()) + (("two-proves",) if split else ()))
             if msg:
                 raise core.Violation(case, msg, "file")
         v = core.drive(test, seed, n_examples)
@@ -203,7 +224,7 @@ def shard(name, seed, n_examples, programs):
 def replay(case):
     e = Env(case["config"])
     try:
-        return quiet(judge, case["trace"], case["config"], e.mod, e.tmp, case.get("alt_privs"))
+        return quiet(judge, case["trace"], case["config"], e.mod, e.tmp, case.get("alt_privs"), case.get("split"))
     finally:
         e.close()
 
